@@ -351,9 +351,32 @@ theorem hRemoveAt_WfB {N M : Nat} (hNM : N ≤ M)
   | appendSlot => simp [hRemoveAt] at h
   | missing rem => simp [hRemoveAt] at h
 
-theorem hRemoveVal_WfB {N M : Nat} (hNM : N ≤ M) (v : Bytes)
+theorem removeFirstC_length (w : Bytes) : ∀ (xs : List Node), (removeFirstC w xs).length ≤ xs.length
+  | [] => by simp [removeFirstC]
+  | x :: rest => by
+    have ih := removeFirstC_length w rest
+    rw [removeFirstC]; split
+    · simp
+    · simp; exact ih
+
+theorem WfBI_removeFirstC {N : Nat} (w : Bytes) : ∀ (xs : List Node), WfBI N xs → WfBI N (removeFirstC w xs)
+  | [], _ => by rw [removeFirstC, WfBI]; trivial
+  | x :: rest, h => by
+    rw [WfBI] at h
+    rw [removeFirstC]; split
+    · exact h.2
+    · rw [WfBI]; exact ⟨h.1, WfBI_removeFirstC w rest h.2⟩
+
+theorem rmVal_ok {N : Nat} (c : Bool) (v : Bytes) (xs : List Node) (h : WfBI N xs) :
+    WfBI N (rmVal c v xs) ∧ (rmVal c v xs).length ≤ xs.length := by
+  unfold rmVal; split
+  · exact ⟨WfBI_removeFirstC _ xs h, removeFirstC_length _ xs⟩
+  · exact ⟨WfBI_removeFirst v xs h, removeFirst_length v xs⟩
+
+theorem hRemoveVal_WfB {N M : Nat} (hNM : N ≤ M) (rm : List Node → List Node)
+    (hrm : ∀ xs, WfBI N xs → WfBI N (rm xs) ∧ (rm xs).length ≤ xs.length)
     (p : Node) (hit : Hit) (p' : Node) (hp : WfB N p) (_ : HitOk hit)
-    (h : hRemoveVal v p hit = .ok p') : WfB M p' := by
+    (h : hRemoveVal rm p hit = .ok p') : WfB M p' := by
   cases hit with
   | target i =>
     rw [hRemoveVal] at h
@@ -362,9 +385,9 @@ theorem hRemoveVal_WfB {N M : Nat} (hNM : N ≤ M) (v : Bytes)
       injection h with h; subst h
       have hc := WfB_getChild hp hg
       rw [WfB] at hc
-      have hnew : WfB N (.arr (removeFirst v xs)) := by
+      have hnew : WfB N (.arr (rm xs)) := by
         rw [WfB]
-        exact ⟨Nat.le_trans (removeFirst_length v xs) hc.1, WfBI_removeFirst v xs hc.2⟩
+        exact ⟨Nat.le_trans (hrm xs hc.2).2 hc.1, (hrm xs hc.2).1⟩
       exact WfB_mono hNM _ (WfB_setChild hp hnew)
     · cases h
   | appendSlot => simp [hRemoveVal] at h; subst h; exact WfB_mono hNM _ hp
@@ -475,7 +498,7 @@ theorem applyOp_WfB {cfg : Cfg} (hv : cfg.validatesValues = true) {N : Nat} {t t
     rw [hk] at h; simp only at h ⊢
     split at h
     · cases h
-    · exact walk_WfB (by omega) _ (hRemoveVal_WfB (by omega) op.value) segs t t' hs ht h
+    · exact walk_WfB (by omega) _ (hRemoveVal_WfB (by omega) _ (rmVal_ok _ _)) segs t t' hs ht h
   | merge =>
     rw [hk] at h; simp only at h ⊢
     split at h
